@@ -23,6 +23,8 @@ func main() {
 		cmdPointer(os.Args[2:])
 	case "cred":
 		cmdCred(os.Args[2:])
+	case "auth":
+		cmdAuth(os.Args[2:])
 	case "tq":
 		cmdTQ(os.Args[2:])
 	default:
